@@ -223,10 +223,21 @@ func c35Hook(where string, ctx *fasthttp.RequestCtx) {
 				}
 				r.opsDone[r.req]++
 			case "ml": // parse with a body-size limit that large uploads exceed: fasthttp removes what ReadForm created
-				f, err := ctx.MultipartFormWithLimit(20000)
+				lim := q.GetUintOrZero("lim")
+				if lim == 0 {
+					lim = 20000
+				}
+				f, err := ctx.MultipartFormWithLimit(lim)
 				n := r.observe("parse")
 				if err != nil {
-					r.events = append(r.events, "Q")
+					if string(q.Peek("lk")) == "over" && r.opsDone[r.req] == 0 {
+						// the whole form fits into limit+1 bytes: ReadForm succeeded, the limit check rejected it. What
+						// ReadForm had created must be gone when the call returns (the model's parseTooLarge); files
+						// still listed now are recorded as created by this request and judged by the monitor
+						r.events = append(r.events, fmt.Sprintf("Y%d", n))
+					} else {
+						r.events = append(r.events, "Q")
+					}
 				} else {
 					r.events = append(r.events, fmt.Sprintf("P%d", n))
 					if r.opsDone[r.req] == 0 {
@@ -269,6 +280,8 @@ type c35ReqSpec struct {
 	bad      bool
 	te, clos bool
 	plain    bool
+	limit    string // "": none; "tight": handler's limit = body length - 1; "epi": form + short epilogue, limit = form length;
+	// "loose": limit = body length (accepted)
 }
 
 func c35ParseSpec(b []byte) c35ReqSpec {
@@ -305,6 +318,10 @@ func c35ParseSpec(b []byte) c35ReqSpec {
 			s.clos = true
 		case "plain":
 			s.plain = true
+		case "limit":
+			if v == "tight" || v == "epi" || v == "loose" {
+				s.limit = v
+			}
 		}
 	}
 	if s.nFields > 20 {
@@ -362,6 +379,17 @@ func c35Conn(a [][]byte) *Case {
 		body := form.encode()
 		if sp.bad && len(body) > 12 {
 			body = body[:len(body)-12]
+		}
+		// boundary values of MultipartFormWithLimit: the form is complete within limit+1 bytes, the body is longer
+		// than the limit, so the parser succeeds and the limit check fails afterwards
+		switch sp.limit {
+		case "tight":
+			q += fmt.Sprintf("&lim=%d&lk=over", len(body)-1)
+		case "epi":
+			q += fmt.Sprintf("&lim=%d&lk=over", len(body))
+			body = append(body, "\r\nepilogue: ignored by the parser"[:3+num%30]...)
+		case "loose":
+			q += fmt.Sprintf("&lim=%d", len(body))
 		}
 		run.expected[num] = form
 		pre := !sp.chunked && !cfg.NoPreParse && len(body) > 0
@@ -484,7 +512,7 @@ func c35Conn(a [][]byte) *Case {
 				switch {
 				case e == "D":
 					where = "dispatch"
-				case e[0] == 'P' || e == "Q":
+				case e[0] == 'P' || e == "Q" || e[0] == 'Y':
 					where = "parse"
 				case e == "X":
 					where = "remove"
@@ -672,7 +700,8 @@ func init() {
 		ID: "C35",
 		Rule: "conn: keep-alive pipelines of 1..4 requests through the in-memory server connection with a private TMPDIR listed at every dispatch, after every handler multipart operation and at close; " +
 			"multipart bodies with 0..6 text fields and 0..4 files of sizes around the 8 KiB (streamed on-demand parse) and 16 MiB (pre-parse) thresholds, Content-Length or chunked, StreamRequestBody on/off, DisablePreParseMultipartForm on/off, " +
-			"truncated bodies (parse errors), handler ops MultipartForm/RemoveMultipartFormFiles/ResetBody in any order, TimeoutError, Connection: close; " +
+			"truncated bodies (parse errors), handler ops MultipartForm/MultipartFormWithLimit/RemoveMultipartFormFiles/ResetBody in any order, TimeoutError, Connection: close; " +
+			"MultipartFormWithLimit at its boundary on streamed bodies with file parts > 8 KiB: limit = body length - 1, form + short epilogue with limit = form length, limit = body length; " +
 			"roundtrip: forms (values incl. empty/UTF-8/CRLF, several values per key, files in memory and on disk) written by WriteMultipartForm with random boundaries and parsed back by mime/multipart and by Request.MultipartForm; " +
 			"reqrt: request read (pre-parsed) and re-written, parsed by net/http. non-trivial = at least one temp file really created / form with files; distinct = distinct input",
 		Assumptions: []string{
@@ -797,6 +826,50 @@ func init() {
 				}
 				emit("conn", args...)
 			}
+			// MultipartFormWithLimit at its boundary, streamed on-demand parsing, file parts above 8 KiB: limit = body
+			// length - 1, form + short epilogue with limit = form length, and the accepted twin (limit = body length);
+			// followed by another request (listing at the next dispatch) or by Connection: close (listing at close)
+			lb := 40
+			if tier == "thorough" {
+				lb = 600
+			}
+			for i := 0; i < lb; i++ {
+				cfg := "mb=30000000,st=1"
+				chunked := ""
+				if r.Chance(35) {
+					chunked = "&chunked=1"
+				} else {
+					cfg += ",npp=1"
+				}
+				if r.Chance(20) {
+					cfg += ",rm=1"
+				}
+				args := [][]byte{B(cfg)}
+				m := 1 + r.Intn(3)
+				for j := 0; j < m; j++ {
+					kind := []string{"tight", "tight", "epi", "loose"}[r.Intn(4)]
+					s := fmt.Sprintf("fields=%d&files=%d", r.Intn(4), 8193+r.Intn(60000))
+					if r.Bool() {
+						s += fmt.Sprintf(",%d", r.Intn(30000))
+					}
+					s += "&limit=" + kind + "&ops=ml" + chunked
+					switch r.Intn(6) {
+					case 0:
+						s += ".rm"
+					case 1:
+						s += ".mf"
+					case 2:
+						s += "&close=1"
+					}
+					args = append(args, B(s))
+				}
+				args = append(args, B("plain=1"))
+				emit("conn", args...)
+			}
+			emit("conn", B("mb=30000000,st=1,npp=1"), B("fields=1&files=262144&limit=tight&ops=ml"), B("plain=1"))
+			emit("conn", B("mb=30000000,st=1,npp=1"), B("fields=1&files=262144&limit=epi&ops=ml"), B("plain=1"))
+			emit("conn", B("mb=30000000,st=1"), B("fields=0&files=9000&limit=tight&ops=ml&chunked=1&close=1"))
+			emit("conn", B("mb=30000000,st=1,npp=1"), B("fields=1&files=20000&limit=loose&ops=ml"), B("fields=1&files=20000&limit=tight&ops=ml"), B("plain=1"))
 			// pre-parse beyond 16 MiB: temp files exist BEFORE the handler runs
 			for i := 0; i < bigN; i++ {
 				cfg := "mb=40000000"
